@@ -32,6 +32,8 @@ MAXC = "ruzstd::common::MAX_BLOCK_SIZE"
 # "together with the window limit": the limit check before any window-sized allocation (C11), reported as C05.limit
 INCLUDES = [
     ("c11", "C05.limit", {"rules": ("C11.dom.check-before-alloc", "C11.cmp.operator", "C11.who.limit", "C11.who.alloc-callers")}, 6),
+    # the multi-frame call must stop as soon as its target is full instead of buffering the rest of the frame
+    ("c10", "C05.multi", {"keys": ("decode_all::target-too-small", "decode_all::while-input", "decode_all::advances")}, 2),
 ]
 
 
